@@ -184,3 +184,40 @@ pub async fn run_server_session<T: RequestHandler>(
     let mut phys = PhysLayer::new_verif(io);
     session.run(&mut phys).await
 }
+
+/// The production server `SessionTask`, owned by the caller so that it can be run over several
+/// consecutive transports, as `RtuServerTask` does across port re-opens (same session, same
+/// `FramedReader`, a new `PhysLayer` every time)
+pub struct ServerSession<T: RequestHandler> {
+    inner: SessionTask<T>,
+    _commands: tokio::sync::mpsc::Sender<ServerCommand>,
+}
+
+impl<T: RequestHandler> ServerSession<T> {
+    pub fn new(
+        handlers: ServerHandlerMap<T>,
+        auth: Option<(Arc<dyn AuthorizationHandler>, String)>,
+        framing: Framing,
+        decode: DecodeLevel,
+    ) -> Self {
+        let auth = match auth {
+            None => AuthorizationType::None,
+            Some((handler, role)) => AuthorizationType::Handler(handler, role),
+        };
+        let reader = match framing {
+            Framing::Tcp => Framing::Tcp.reader(),
+            _ => Framing::RtuRequest.reader(),
+        };
+        let (tx, rx) = tokio::sync::mpsc::channel(1);
+        Self {
+            inner: SessionTask::new(handlers, auth, framing.writer(), reader, rx, decode),
+            _commands: tx,
+        }
+    }
+
+    /// run the session over one transport until it ends (what `RtuServerTask::run` does per open port)
+    pub async fn run(&mut self, io: Box<dyn VerifIo>) -> RequestError {
+        let mut phys = PhysLayer::new_verif(io);
+        self.inner.run(&mut phys).await
+    }
+}
